@@ -205,26 +205,36 @@ Definition mapname (m : list (str * str)) (n : str) : str :=
   match aget str_eqb m n with Some v => v | None => n end.
 Definition map_key (m : list (str * str)) (k : key2) : key2 := (mapname m (fst k), mapname m (snd k)).
 Definition set_of_list (l : list key2) : list key2 := fold_left set_add l [].
-Fixpoint rename_loop (m : list (str * str)) (ids : list id) (g : grid) : res grid :=
+(** [for blk in renamed: del self.block[blk.name]] *)
+Fixpoint del_names (g : grid) (ids : list id) : res grid :=
   match ids with
   | [] => Ok g
   | i :: r =>
-      let name := bn g i in
-      do g1 <- match aget str_eqb m name with
-               | Some nn =>
-                   match bget g name with
-                   | None => Raise KeyError              (* del self.block[name] *)
-                   | Some _ => Ok (set_bname (set_bdict g (aset str_eqb (adel str_eqb (bdict g) name) nn i))
-                                             (fset (bname g) i nn))
-                   end
-               | None => Ok g
-               end;
-      rename_loop m r (set_bcn g1 (fset (bcn g1) i (set_of_list (map (map_key m) (cn g1 i)))))
+      match bget g (bn g i) with
+      | None => Raise KeyError
+      | Some _ => del_names (set_bdict g (adel str_eqb (bdict g) (bn g i))) r
+      end
   end.
+(** body of [for blk in self.blocklist]: new name, then the connection_name set rebuilt through the map *)
+Definition rename_one (m : list (str * str)) (g : grid) (i : id) : grid :=
+  let g1 := match aget str_eqb m (bn g i) with
+            | Some nn => set_bname g (fset (bname g) i nn)
+            | None => g
+            end in
+  set_bcn g1 (fset (bcn g1) i (set_of_list (map (map_key m) (cn g1 i)))).
+(** [for blk in renamed: self.block[blk.name] = blk] *)
+Definition file_block (g : grid) (i : id) : grid := set_bdict g (aset str_eqb (bdict g) (bn g i) i).
+(** [self.connection = {}; for con in connectionlist: self.connection[names of its blocks] = con] *)
 Definition rebuild_cdict (g : grid) : grid :=
   set_cdict g (fold_left (fun acc j => aset key2_eqb acc (ckey g j) j) (clist g) []).
+Definition in_map (m : list (str * str)) (n : str) : bool :=
+  match aget str_eqb m n with Some _ => true | None => false end.
 Definition rename_blocks (g : grid) (m : list (str * str)) : res grid :=
-  do g1 <- rename_loop m (blist g) g; Ok (rebuild_cdict g1).
+  let renamed := filter (fun i => in_map m (bn g i)) (blist g) in
+  do g1 <- del_names g renamed;
+  let g2 := fold_left (rename_one m) (blist g1) g1 in
+  let g3 := fold_left file_block renamed g2 in
+  Ok (rebuild_cdict g3).
 
 (** ** reorder(block_names, connection_names) *)
 Fixpoint lookup_blocks (g : grid) (ns : list str) : res (list id) :=
